@@ -40,6 +40,7 @@ MOUNTS = {
 # mounted in the REPLAY flavour only (the Kani flavour compiles items extracted from these files)
 MOUNTS_REPLAY_ONLY = {
     "io.rs": [("verif_io_state", "h_io_state.rs")],
+    "v5/dispatcher.rs": [("verif_v5_pubgate", "h_v5_pubgate.rs")],
 }
 
 # connection-state slice: the std `VecDeque` import of these files is renamed and the fixed-capacity
@@ -83,7 +84,7 @@ SLICE_FILES = [
     "v5/codec/packet/connect.rs", "v5/codec/packet/disconnect.rs",
     "v5/codec/packet/pubacks.rs", "v5/codec/packet/publish.rs",
     "v5/codec/packet/subscribe.rs",
-    "payload.rs", "v5/shared.rs", "v3/shared.rs", "io.rs",
+    "payload.rs", "v5/shared.rs", "v3/shared.rs", "io.rs", "v5/dispatcher.rs",
 ]
 
 
@@ -263,6 +264,70 @@ def gen_io_state(stage):
     return d
 
 
+PUBGATE_HEAD = """// GENERATED by lib/weave.py on every run from src/v5/dispatcher.rs: `struct PublishInfo` and the
+// synchronous admission block of `Service<Decoded>::call`, arm `Decoded::Publish` (receive maximum, maximum QoS,
+// retain availability, packet-id reservation, topic-alias resolution, after-disconnect rule) are repository
+// text, extracted verbatim; the block is wrapped into a function (`publish_gate`) of a struct that
+// declares exactly the fields the block touches. One recorded substitution: the explicit path
+// `std::collections::hash_map::Entry` -> `ntex_util::hash_map::Entry` (the map is the fixed-capacity model).
+use std::{cell::RefCell, num, rc::Rc};
+use ntex_bytes::ByteString;
+use ntex_util::{HashMap, HashSet};
+use crate::error::{DispatcherError, ProtocolError, SpecViolation};
+use crate::types::QoS;
+use super::codec::{self, DisconnectReasonCode, Encoded};
+use super::shared::MqttShared;
+
+"""
+PUBGATE_MID = """
+pub(crate) struct Inner {
+    sink: Rc<MqttShared>,
+    info: RefCell<PublishInfo>,
+}
+pub(crate) struct GateCfg {
+    handle_qos_after_disconnect: Option<QoS>,
+}
+pub(crate) struct Dispatcher {
+    inner: Rc<Inner>,
+    cfg: GateCfg,
+}
+impl Dispatcher {
+    fn tag(&self) -> &'static str {
+        "MODEL"
+    }
+    /// Ok(Some(..)) = the PUBLISH passed admission and goes to the publish handler
+    pub(crate) fn publish_gate<E>(
+        &self,
+        publish: &mut codec::Publish,
+        packet_id: Option<num::NonZeroU16>,
+    ) -> Result<Option<Encoded>, DispatcherError<E>> {
+        let info = self.inner.as_ref();
+"""
+PUBGATE_TAIL = """
+        Ok(Some(Encoded::PayloadChunk(ntex_bytes::Bytes::new())))
+    }
+}
+"""
+
+
+def gen_v5_pubgate(stage):
+    with open(os.path.join(REPO, "src", "v5", "dispatcher.rs")) as f:
+        txt = f.read()
+    info = extract_item(txt, r"^struct PublishInfo ", "struct PublishInfo (v5 dispatcher)")
+    # the admission block: the first `{` block that starts with `let mut inner = info.info.borrow_mut();`
+    block = extract_item(txt, r"^                (?=\{\n                    let mut inner = info\.info\.borrow_mut\(\);)", "v5 publish admission block")
+    sub = "std::collections::hash_map::Entry"
+    if block.count(sub) != 2:
+        raise SystemExit(f"weave: expected 2 occurrences of `{sub}` in the v5 publish admission block, found {block.count(sub)}")
+    block2 = block.replace(sub, "ntex_util::hash_map::Entry")
+    body = PUBGATE_HEAD + info + "\n" + PUBGATE_MID + "        " + block2.lstrip() + "\n" + PUBGATE_TAIL
+    body += '\n#[cfg(kani)]\n#[path = "' + os.path.join(HARN, "h_v5_pubgate.rs") + '"]\nmod verif_v5_pubgate;\n'
+    with open(os.path.join(stage, "gen_v5_pubgate.rs"), "w") as f:
+        f.write(body)
+    return {"struct PublishInfo": hashlib.sha256(info.encode()).hexdigest(),
+            "publish admission block": hashlib.sha256(block.encode()).hexdigest()}
+
+
 def weave_kani():
     """scratch copy for the Kani slice -> /verif/build/weave/src. Returns metadata dict."""
     out = os.path.join(UNIT, "weave")
@@ -310,6 +375,7 @@ def weave_kani():
     with open(os.path.join(stage, "gen_v5_consts.rs"), "w") as f:
         f.write(gen)
     extracted = gen_io_state(stage)
+    extracted_gate = gen_v5_pubgate(stage)
     # the real LocalWaker source (std-only file) from the registry version pinned by Cargo.lock
     ver = None
     with open(os.path.join(REPO, "Cargo.lock")) as f:
@@ -360,7 +426,7 @@ def weave_kani():
                            if os.path.exists(os.path.join(REPO, "src", rel))},
         "appended_lines": appended,
         "substitutions": substituted,
-        "extracted_items_sha256": {"io.rs": extracted},
+        "extracted_items_sha256": {"io.rs": extracted, "v5/dispatcher.rs": extracted_gate},
     }
     return meta
 
